@@ -412,7 +412,7 @@ func runFree(c *c22Case, cov func(string)) (r caseResult) {
 		var o Obs
 		poll(stepDeadline, func() bool {
 			o = s.Observe()
-			return o.Cur == 0 && o.Q == 0 || o.Cur > 0 && strings.Contains(strings.Join(o.Out, " "), fmt.Sprintf("%d/", o.Cur))
+			return o.State == "NORMAL" && o.Cur == 0 && o.Q == 0 || o.Cur > 0 && strings.Contains(strings.Join(o.Out, " "), fmt.Sprintf("%d/", o.Cur))
 		})
 		if o.Cur == 0 {
 			continue
@@ -498,8 +498,12 @@ func runFree(c *c22Case, cov func(string)) (r caseResult) {
 			return
 		}
 	}
-	o := s.Observe()
-	r.trace = traceOf(c.Cfg.Members, s.Events(), true, o.State)
+	clean, o, why := d.drain()
+	r.trace = traceOf(c.Cfg.Members, s.Events(), clean, o.State)
+	if !clean {
+		stuck = true
+		r.fail = d.failure(behav.Step{"ev": "Drain"}, rounds, "not_clean_after_drain", "", fmt.Sprintf("concurrent schedule: cluster did not return to NORMAL without a current job (%s): %s", why, behav.JSON(o)))
+	}
 	return r
 }
 
